@@ -401,6 +401,22 @@ def machine(acc: Acc, tier, shard, nshards):
             self._check(ch.choice(OPTS))
 
         @rule(data=st.data())
+        def set_projection(self, data):
+            # PROJECTION through the API: a list / tuple of definition strings, or one string
+            ch = model.Ch(data.draw)
+            cands = [(p_, o_) for p_, o_ in objects_of(self.d) if "projection" in vocab.slots(o_["__type__"])]
+            if not cands:
+                return
+            path, o = ch.choice(cands)
+            v = ch.choice(["init=epsg:4326", ["init=epsg:3857"], ["proj=utm", "zone=11", "datum=WGS84"], ("proj=longlat", "no_defs"),
+                           "AUTO", ["AUTO"], "+proj=merc +lon_0=0", ["+proj=laea", "+lat_0=52"]])
+            spelled = ch.choice(["projection", "PROJECTION", "Projection"]) if isinstance(o, C) else "projection"
+            o[spelled] = v
+            self.hist.append(["set", list(path), spelled, list(v) if isinstance(v, tuple) else v])
+            self.edits += 1
+            self._check(ch.choice(OPTS))
+
+        @rule(data=st.data())
         def delete_keyword(self, data):
             ch = model.Ch(data.draw)
             path, o = self._pick(ch)
